@@ -65,7 +65,7 @@ PLAN["C13"] = dict(
 
 PLAN["C17"] = dict(
     verus=dict(quick=["time"], thorough=["time"]),
-    kani=dict(quick=["time_delta_group", "time_delta_scaling"], thorough=["time_delta_group", "time_delta_scaling", "time_delta_scaling_k3"]),
+    kani=dict(quick=["time_delta_group", "time_delta_scaling"], thorough=["time_delta_group", "time_delta_scaling", "time_delta_scaling_k3", "time_components"]),
     level="proof",
 )
 PLAN["C16"] = dict(
